@@ -279,6 +279,7 @@ impl<'a, 'b> Sentence<'a, 'b> {
         self.type_pma_states.clear();
         self.predictor.take();
         self.tags.clear();
+        self.n_tags = 0;
         Ok(())
     }
 
